@@ -30,6 +30,27 @@ class ReplayTimeout(BaseException):
     """the harness's own time limit (never an outcome of the function under test)"""
 
 
+def late_bound(fn, params, args):
+    """The function a caller reaches through the receiver: when the first parameter is self/cls, the attribute is looked
+    up on the receiver's class, so an override added in a subclass is what gets evaluated (a contract that targets the
+    base-class function would otherwise keep checking code that is no longer called)."""
+    import types
+    try:
+        if not args or not params or params[0][0] not in ('self', 'cls'):
+            return fn
+        name = fn.__name__
+        if name.startswith('__') and not name.endswith('__'):
+            return fn
+        owner = args[0] if isinstance(args[0], type) else type(args[0])
+        live = getattr(owner, name, None)
+        f2 = getattr(live, '__func__', live)
+        if isinstance(f2, types.FunctionType) and f2 is not fn and f2.__code__.co_argcount == fn.__code__.co_argcount:
+            return f2
+    except Exception:
+        pass
+    return fn
+
+
 def decode_value(v):
     if isinstance(v, dict):
         if '__bytes__' in v:
@@ -246,6 +267,7 @@ def _check(cdef, fn, kind, owner, inputs, chain):
     args = [vals[nm] for nm, _ in params if nm not in gh and nm not in fkwonly]
     kwargs = {nm: vals[nm] for nm, _ in params if nm in fkwonly}
     out = {'inputs': inputs, 'chain': chain}
+    fn = late_bound(fn, params, args)
     try:
         result = fn(*args, **kwargs)
         out['outcome'] = 'return'
